@@ -125,6 +125,8 @@ pub struct Exec {
     tx: Sender<StatisticsMessage>,
     rx: Receiver<StatisticsMessage>,
     rng: SmallRng,
+    /// C20: when set, every cleaning pass also writes the full-scrape export there
+    pub export_path: Option<std::path::PathBuf>,
 }
 
 fn src_of(fam: u8, ip: &[u8], port: u16) -> CanonicalSocketAddr {
@@ -162,6 +164,19 @@ impl Exec {
             tx,
             rx,
             rng: SmallRng::seed_from_u64(seed),
+            export_path: None,
+        }
+    }
+
+    /// the export file as a sorted list of `<4|6>/<hash>/<seeders>/<leechers>` (`~` if empty, `!` if absent)
+    pub fn read_export(path: &std::path::Path) -> String {
+        match std::fs::read_to_string(path) {
+            Err(_) => "!".into(),
+            Ok(t) => {
+                let mut v: Vec<String> = t.lines().map(|l| l.split(' ').collect::<Vec<_>>().join("/")).collect();
+                v.sort();
+                if v.is_empty() { "~".into() } else { v.join(";") }
+            }
         }
     }
 
@@ -260,22 +275,30 @@ impl Backend for Exec {
                     al.insert_from_line(&hex(h)).unwrap();
                 }
                 self.state.access_list.store(Arc::new(al));
+                if let Some(p) = &self.export_path {
+                    self.config.scrape_exports.path = p.clone();
+                }
                 self.maps.clean_and_update_statistics(
                     &self.config,
                     &self.statistics.swarm.clone(),
                     &self.tx,
                     &self.state.access_list,
                     SecondsSinceServerStart::new_raw(*now),
-                    false,
+                    self.export_path.is_some(),
                 );
                 let s = &self.statistics.swarm;
+                let export = match &self.export_path {
+                    Some(p) => format!(" X:{}", Self::read_export(p)),
+                    None => String::new(),
+                };
                 format!(
-                    "{} {} {} {} {}",
+                    "{} {} {} {} {}{}",
                     s.ipv4.torrents.load(Ordering::Relaxed),
                     s.ipv4.peers.load(Ordering::Relaxed),
                     s.ipv6.torrents.load(Ordering::Relaxed),
                     s.ipv6.peers.load(Ordering::Relaxed),
-                    self.drain(true)
+                    self.drain(true),
+                    export
                 )
             }
         }
